@@ -13,7 +13,8 @@ function `sem(policy, assignment)`; the oracle `spec_*` is the specification's s
 """
 import re
 
-from vlib.verus import VerusFile, Contract, Clause, sub, lit
+from vlib.verus import VerusFile, Contract, Clause, sub, lit, rule, split_fn
+from vlib.extract import lex, match_close
 from units import _tree
 from units import c20_translate as C20
 
@@ -43,8 +44,9 @@ DROPPED = [
     "the call chain `.map_ref(..).forget_maximum()` are verbatim; Threshold::map_ref is consumed through its contract",
     "TapTree::lift (`.leaves().map(..).collect::<Result<Vec<_>,_>>()`, `.normalized()`): iterator adapters, excluded; Tr::lift consumes it "
     "through an uninterpreted result",
-    "Tr::lift: the tail expression `match &self.tree {..}` is bound to a name so that a ghost block can follow it (R10, same shape as "
-    "vf.step's `step_result`); Wpkh/Pkh/Sh::lift get `broadcast use clone_is_identity` (ghost) in front of the body",
+    "Tr::lift: the tail expression of the body (`match &self.tree {..}`, or an `if let .. else ..` / any other expression) is bound to a name "
+    "so that a ghost block can follow it (R10 `bind_tail`, same shape as vf.step's `step_result`); Wpkh/Pkh/Sh::lift get "
+    "`broadcast use clone_is_identity` (ghost) in front of the body",
     "Threshold::{and, or}: helper precondition `MAX == 0 || MAX > 1` (the `debug_assert!` of the body; every call site uses MAX = 0)",
     "Liftable for Concrete (policy -> policy, recursion through closures + iterator adapters): excluded, not part of the script side of C07",
 ]
@@ -286,6 +288,73 @@ CLOSURE_NEW = ("|key: &Pk| -> (kr: Arc<Semantic<Pk>>) ensures *kr == Semantic::<
                "{ Arc::new(Semantic::Key(key.clone())) }")
 
 
+# ------------------------------------------------------------------------------------------------------------
+# R10 helper (structural, shared with c07_taptree): bind the TAIL EXPRESSION of a function body to a name so that a ghost
+# block can follow it.  Independent of the spelling of the tail (`match e {..}`, `if let .. {..} else {..}`, `Ok(..)`, ...)
+# and of the statements in front of it.
+_BLOCK_LIKE = ("if", "match", "loop", "while", "for", "unsafe", "{")
+
+
+def tail_expr_span(text, lo, hi):
+    """(start, end) of the tail expression of the block whose contents are text[lo:hi] (braces excluded), or None when the
+    block ends in `;` (no tail).  Statements are told apart with the Rust-aware lexer + bracket matcher: a statement ends at
+    a top-level `;`, or at the closing brace of a block-like expression statement (`if`/`match`/`loop`/`while`/`for`/block)
+    that is not continued by `else`, `.` or `?`."""
+    toks = [t for t in lex(text, lo, hi) if t[0] not in ("ws", "comment", "doc")]
+    n = len(toks)
+    stmts = []          # (first token index, last token index, ended by `;`)
+    cur = None
+    i = 0
+    while i < n:
+        k, s, e = toks[i]
+        t = text[s:e]
+        if cur is None:
+            cur = i
+        if k == "punct" and t in ("(", "[", "{"):
+            close = match_close(text, s)
+            j = i
+            while j < n and toks[j][1] <= close:
+                j += 1
+            if t == "{" and text[toks[cur][1]:toks[cur][2]] in _BLOCK_LIKE:
+                nxt = text[toks[j][1]:toks[j][2]] if j < n else None
+                if nxt is not None and nxt not in ("else", ".", "?", ";"):
+                    stmts.append((cur, j - 1, False))
+                    cur = None
+            i = j
+            continue
+        if k == "punct" and t == ";":
+            stmts.append((cur, i, True))
+            cur = None
+        i += 1
+    if cur is not None:
+        stmts.append((cur, n - 1, False))
+    if not stmts or stmts[-1][2]:
+        return None
+    a, b, _ = stmts[-1]
+    return toks[a][1], toks[b][2]
+
+
+def bind_tail(name, at_entry, after, rule_name="R10"):
+    """R10 (insertion only): ghost text `at_entry` right after the opening brace of the function body; the body's tail
+    expression TAIL becomes `let <name> = TAIL; <after> <name>`.  No executable token is added, removed or reordered apart
+    from naming the function's result (as vf.step does with `step_result`); an early `return` / `?` inside TAIL still leaves
+    the function directly.  None (=> UNDECIDED) when the body has no tail expression."""
+    @rule(rule_name)
+    def rw(text):
+        body = split_fn(text)[3]
+        off = len(text) - len(body)
+        if text[off] != "{":
+            return None
+        close = match_close(text, off)
+        span = tail_expr_span(text, off + 1, close)
+        if span is None:
+            return None
+        a, b = span
+        return (text[:off + 1] + "\n        " + at_entry + text[off + 1:a] + "let %s = %s;\n        %s\n        %s\n    "
+                % (name, text[a:b], after, name) + text[close:])
+    return rw
+
+
 def build(repo):
     vf = VerusFile(NAME, repo)
     _tree.emit(vf, ext="real", types="defs", script_context=SCRIPT_CONTEXT)
@@ -365,11 +434,10 @@ def build(repo):
     TRKEY = "forall|a: Asg| sem(r->Ok_0, a) == %s"
     with vf.block("impl<Pk: MiniscriptKey> Tr<Pk>"):
         vf.fn(TR, "impl:Liftable<Pk> for Tr<Pk>/fn:lift", qual="Tr", props=PROPS,
-              rewrites=[lit("R10", "match &self.tree {", "broadcast use clone_is_identity;\n        let tr_result = match &self.tree {"),
-                        sub("R10", r"\}\s*\}\s*$", "};\n        proof { if tr_result is Ok && tr_result->Ok_0 is Thresh && tr_result->Ok_0->Thresh_0.inner@.len() == 2 { let ghost p = tr_result->Ok_0; "
-                            "assert forall|a: Asg| (p->Thresh_0.k == 2 ==> #[trigger] sem(p, a) == (sem(*p->Thresh_0.inner@[0], a) && sem(*p->Thresh_0.inner@[1], a))) "
-                            "&& (p->Thresh_0.k == 1 ==> sem(p, a) == (sem(*p->Thresh_0.inner@[0], a) || sem(*p->Thresh_0.inner@[1], a))) by { lemma_thresh2(p, a); } } }\n"
-                            "        tr_result\n    }")],
+              rewrites=[bind_tail("tr_result", "broadcast use clone_is_identity;",
+                                  "proof { if tr_result is Ok && tr_result->Ok_0 is Thresh && tr_result->Ok_0->Thresh_0.inner@.len() == 2 { let ghost p = tr_result->Ok_0; "
+                                  "assert forall|a: Asg| (p->Thresh_0.k == 2 ==> #[trigger] sem(p, a) == (sem(*p->Thresh_0.inner@[0], a) && sem(*p->Thresh_0.inner@[1], a))) "
+                                  "&& (p->Thresh_0.k == 1 ==> sem(p, a) == (sem(*p->Thresh_0.inner@[0], a) || sem(*p->Thresh_0.inner@[1], a))) by { lemma_thresh2(p, a); } } }")],
               contract=Contract(ensures=[
                   Clause("key_spend_only", ("C07",), "self.tree is None ==> r is Ok && " + TRKEY % "asg_key(a, self.internal_key)"),
                   Clause("key_or_any_leaf", ("C07",), "self.tree matches Some(tt) ==> spec_taptree_lift(tt) matches Ok(p) ==> r is Ok && " + TRKEY % "spec_or(asg_key(a, self.internal_key), sem(p, a))"),
